@@ -546,7 +546,20 @@ func max64(a, b int64) int64 {
 }
 
 // runPath executes the harness once along the given decision prefix.
-func (e *Engine) runPath(sess *Session, h *ssa.Function, prefix []int32, wantSample bool) (res *PathResult) {
+// ReplayConcrete re-executes the harness with every input fixed to the given
+// values (no symbolic state at all) and returns what the assertions say. Used to
+// confirm a solver model where the native process cannot be made to fail a system
+// call or to die at a chosen instant.
+func (e *Engine) ReplayConcrete(h *ssa.Function, inputs map[string]uint64) (*PathResult, error) {
+	sess, err := NewSession(e.solverBin, e.solverArgs)
+	if err != nil {
+		return nil, err
+	}
+	defer sess.Close()
+	return e.runPath(sess, h, nil, false, inputs), nil
+}
+
+func (e *Engine) runPath(sess *Session, h *ssa.Function, prefix []int32, wantSample bool, replay ...map[string]uint64) (res *PathResult) {
 	ex := &Exec{
 		eng: e, ts: NewTermStore(), sess: sess, prefix: prefix,
 		occ: map[string]int{}, choices: map[string]uint64{},
@@ -554,6 +567,9 @@ func (e *Engine) runPath(sess *Session, h *ssa.Function, prefix []int32, wantSam
 		globals: map[*ssa.Global]*Value{}, gmemo: map[any]any{},
 		res:   &PathResult{Reached: map[string]int{}, FuncsUsed: map[*ssa.Function]bool{}},
 		ghost: map[string]any{}, wantSample: wantSample,
+	}
+	if len(replay) > 0 && replay[0] != nil {
+		ex.replay = replay[0]
 	}
 	res = ex.res
 	sess.BeginPath()
